@@ -8,5 +8,6 @@ CONSTANTS
  K = 7
  Dt <- MCDt
 INVARIANT InLimits
+INVARIANT FollowsProgram
 INVARIANT DataExact
 CHECK_DEADLOCK FALSE
